@@ -36,6 +36,22 @@ def yaml11_int(s):
         return sign * v
     return sign * int(s)
 
+def yaml11_float(s):
+    """value of a text of the float type as an exact rational (None for inf/nan): sign, '_' ignored, decimal with exponent, or sexagesimal"""
+    from fractions import Fraction
+    s = s.replace('_', '').lower(); sign = 1
+    if s[0] == '-': sign = -1
+    if s[0] in '+-': s = s[1:]
+    if s in ('.inf', '.nan'): return None
+    if ':' in s:
+        v = Fraction(0)
+        for d in s.split(':'): v = v * 60 + Fraction(d if d not in ('', '.') else '0') if not d.endswith('.') else v * 60 + Fraction(d[:-1] or '0')
+        return sign * v
+    if s.endswith('.'): s = s[:-1]
+    if s.startswith('.'): s = '0' + s
+    s = s.replace('.e', 'e')
+    return sign * Fraction(s)
+
 # ---- members of each reference language (random descent over the parsed pattern): used by generators and witness search
 import re._parser as _sp
 from re._constants import LITERAL, IN, BRANCH, SUBPATTERN, MAX_REPEAT, AT, RANGE, NEGATE, MAXREPEAT
